@@ -210,7 +210,8 @@ def callerRows : Option DropSet → List Nat
 /-- What one part of the output must be when exactly the rows at positions `K` remain: every
 column of every factor contributes its cells at `K` (so output row `j` is input row `K[j]`;
 constants fill the rows that remain), the intercept has one entry per remaining row, and pandas
-output carries the labels of the rows at `K` (a frame without row labels gets a fresh
+output — `output="pandas"`, and the native pandas frame that `output="narwhals"` hands back for
+pandas-backed data — carries the labels of the rows at `K` (a frame without row labels gets a fresh
 `RangeIndex`). -/
 def expectedMatrix {L ρ : Type} (labels : List L) (K : List Nat) (o : Output) (p : Part ρ) :
     Matrix L ρ :=
@@ -221,6 +222,7 @@ def expectedMatrix {L ρ : Type} (labels : List L) (K : List Nat) (o : Output) (
       match o, p.mat with
       | .pandas, .pandas => .labels (rowsAt labels K)
       | .pandas, .narwhals => .labels (rowsAt labels K)
+      | .narwhals, .narwhals => .labels (rowsAt labels K)   -- (the native pandas frame)
       | .pandas, .arrow => .range K.length
       | _, _ => .none }
 
@@ -239,6 +241,7 @@ def fullMatrix {L ρ : Type} (labels : List L) (n : Nat) (o : Output) (p : Part 
       match o, p.mat with
       | .pandas, .pandas => .labels labels
       | .pandas, .narwhals => .labels labels
+      | .narwhals, .narwhals => .labels labels
       | .pandas, .arrow => .range n
       | _, _ => .none }
 
